@@ -25,7 +25,7 @@ META = {
     "design_ref": "4/C03",
 }
 LEVEL = "proof"
-EXTRACTS = ["repex"]
+EXTRACTS = ["repex", "c02"]
 
 
 def _run(case):
@@ -37,6 +37,7 @@ def run(ctx, which="C03"):
     runner = common.runner_stage(ctx, "repex")
     if runner is None:
         return
+    common.runner_stage(ctx, "c02")   # the Coq model of inf_retis supplies the P of every recorded step
     cases = RR.gen_cases(ctx.tier, ctx.rng)
     results = H.run_many(_run, cases, jobs=14, timeout=900)
     agg = {}
